@@ -20,6 +20,7 @@ Expressions are nested tuples:
 DEREF_CALLEES = (
     "std::ops::Deref::deref", "std::ops::DerefMut::deref_mut",
     "core::ops::Deref::deref", "core::ops::DerefMut::deref_mut",
+    "std::vec::Vec::as_slice", "std::vec::Vec::as_mut_slice",
 )
 # calls that return (a reference to) their receiver, or a by-value copy of it
 IDENTITY_CALLEES = (
@@ -183,6 +184,9 @@ class Sym:
         if k == "binop":
             return ("binop", rv["op"], self.operand(rv["a"]), self.operand(rv["b"]))
         if k == "unop":
+            if rv["op"] == "PtrMetadata":
+                # length of a slice as read by slice patterns: the same value as `<[T]>::len`
+                return ("call", "core::slice::<impl [T]>::len", (self.operand(rv["a"]),), -1)
             return ("unop", rv["op"], self.operand(rv["a"]))
         if k == "discr":
             return ("discr", self.place(rv["place"]))
